@@ -59,7 +59,7 @@ PutBack(kept, s) == IF Order = "0" THEN kept \o s ELSE MergeFront(kept, s)
 \* ---- frames
 LiveL(e, s) == SelectSeq(s, LAMBDA x : InSeq(lst[e], x))
 LiveF(s) == SelectSeq(s, LAMBDA x : InSeq(flt, x))
-NewD(e, uid, v, explicit, alias) == [k |-> "D", e |-> e, uid |-> uid, v |-> v, ph |-> "f", ftodo |-> flt, todo |-> <<>>, cur |-> 0,
+NewD(e, uid, v, explicit, alias) == [k |-> "D", e |-> e, uid |-> uid, v |-> v, v0 |-> v, ph |-> "f", ftodo |-> flt, todo |-> <<>>, cur |-> 0,
                                      explicit |-> explicit, alias |-> alias]
 NewP(mode, batch) == [k |-> "P", mode |-> mode, batch |-> batch, kept |-> <<>>, cnt |-> 0, inpred |-> 0, stopped |-> FALSE]
 \* a dispatch whose filters are through takes the snapshot of its listeners
@@ -132,7 +132,7 @@ EvDispatchBegin == /\ Is("db") /\ LET S == Settle(frames, done) IN
 \* after the call the caller's own argument is what it was, unless the prototype takes it by non-const reference
 EvDispatchEnd == /\ Is("de") /\ LET S == Settle(frames, done) IN
                     /\ S.fr # <<>> /\ Top(S.fr).k = "D" /\ Top(S.fr).explicit /\ Finished(Top(S.fr)) /\ Top(S.fr).uid = Ev.u
-                    /\ Ev.a = Top(S.fr).v
+                    /\ Ev.a = (IF Top(S.fr).alias = 1 THEN Top(S.fr).v ELSE Top(S.fr).v0)
                     /\ frames' = SubSeq(S.fr, 1, Len(S.fr) - 1) /\ done' = S.dn
                     /\ pins' = IF Len(S.fr) = 1 THEN 0 ELSE pins
                  /\ UNCHANGED <<lst, flt, nn, nf, pending>> /\ LvOk(frames', pins') /\ PvOk(frames')
